@@ -175,6 +175,8 @@ def run_workers(exe, prop, tier, seeds_per_worker, first_seed, nworkers, extra_e
         })
         if wall:
             env["VERIF_WALL_S"] = str(wall)
+        env["VERIF_RACELOG"] = os.path.join(workdir, "race-%d" % i)
+        env["GORACE"] = "log_path=%s halt_on_error=0 history_size=4" % env["VERIF_RACELOG"]
         errf = open(os.path.join(workdir, "err-%d.log" % i), "w")
         p = subprocess.Popen([exe, "-test.run", "^TestWorker$", "-test.timeout", "0"], env=env, stdout=errf, stderr=errf, cwd=workdir)
         procs.append((i, p, errf))
@@ -195,7 +197,12 @@ def run_workers(exe, prop, tier, seeds_per_worker, first_seed, nworkers, extra_e
                             pass
         if rc != 0:
             with open(os.path.join(workdir, "err-%d.log" % i)) as f:
-                crashed.append((i, rc, f.read()[-6000:]))
+                tail = f.read()[-6000:]
+            # in race builds `testing` fails the test when the detector has reported anything;
+            # the reports themselves are judged per run by the worker (race log)
+            if rc == 1 and "race detected during execution of test" in tail and "panic:" not in tail and "fatal error" not in tail:
+                continue
+            crashed.append((i, rc, tail))
     return results, crashed
 
 
@@ -207,6 +214,8 @@ def run_replay(exe, replay, workdir, tag, trace=False, timeout=600):
     env = dict(os.environ)
     env.update({"VERIF_PROP": replay["property"], "VERIF_REPLAY": path, "VERIF_OUT": out, "VERIF_TMP": workdir,
                 "GOMAXPROCS": env.get("VERIF_GOMAXPROCS", "2")})
+    env["VERIF_RACELOG"] = os.path.join(workdir, "race-replay-%s" % tag)
+    env["GORACE"] = "log_path=%s halt_on_error=0 history_size=4" % env["VERIF_RACELOG"]
     if trace:
         env["VERIF_TRACE"] = "1"
     try:
@@ -220,6 +229,42 @@ def run_replay(exe, replay, workdir, tag, trace=False, timeout=600):
         return json.loads(line)
     except (OSError, ValueError):
         return {"ok": True, "machinery": "replay produced no result (rc=%d): %s" % (p.returncode, p.stdout[-2000:])}
+
+
+def crash_info(tail):
+    """Parse the stderr of a crashed worker: (seed of the last run started, first line of the panic, innermost mtail frame)."""
+    import re
+    seed = None
+    for m in re.finditer(r"@@RUN prop=\S+ seed=(\d+)", tail):
+        seed = int(m.group(1))
+    msg = None
+    frame = None
+    lines = tail.splitlines()
+    for i, l in enumerate(lines):
+        if l.startswith("panic: ") or l.startswith("fatal error: "):
+            msg = l.strip()
+            for k in lines[i + 1:i + 60]:
+                k = k.strip()
+                if k.startswith("github.com/google/mtail/internal/") and "/simrt." not in k and "/verifsim." not in k:
+                    frame = k.split("(")[0].replace("github.com/google/mtail/internal/", "")
+                    break
+                if k.startswith("github.com/google/mtail/verifsim."):
+                    break
+            break
+    return seed, msg, frame
+
+
+def replay_until(exe, rp, workdir, tag, cls, tries, trace=False):
+    """Replay up to `tries` times (fresh process each) until the class reproduces. Race verdicts need this: the
+    schedule replays exactly, but ThreadSanitizer keeps a bounded, randomly evicted access history, so a racy
+    schedule is reported in only a fraction of its executions."""
+    last = None
+    for k in range(tries):
+        r = run_replay(exe, rp, workdir, "%s-%d" % (tag, k), trace=trace)
+        last = r
+        if r and not r.get("machinery") and not r.get("ok") and r.get("class") == cls:
+            return r, k + 1
+    return last, tries
 
 
 def load_known():
@@ -456,7 +501,26 @@ def run_check(args, seed, t0):
         if args.replay:
             with open(args.replay) as f:
                 rp = json.load(f)
-            r = run_replay(exe, rp, workdir, "user", trace=True)
+            if rp.get("by_seed"):
+                path = os.path.join(workdir, "replay-crash.json")
+                with open(path, "w") as f:
+                    json.dump(rp, f)
+                env = dict(os.environ)
+                env.update(tcfg.get("env", {}))
+                env.update({"VERIF_PROP": prop, "VERIF_REPLAY": path, "VERIF_OUT": os.path.join(workdir, "crash.out"), "VERIF_TMP": workdir})
+                p2 = subprocess.run([exe, "-test.run", "^TestWorker$", "-test.timeout", "0"], env=env, stdout=subprocess.PIPE, stderr=subprocess.STDOUT, cwd=workdir, text=True)
+                s2, m2, f2 = crash_info(p2.stdout)
+                if p2.returncode != 0 and m2 and ("crash:" + m2[:120]) == rp.get("class"):
+                    print("replayed: the process dies again: %s (in %s)" % (m2, f2))
+                    print("VIOLATION property=%s replay=%s" % (prop, os.path.abspath(args.replay)))
+                    return 1
+                print("replay: the process did not die the recorded way (rc=%d, %s)" % (p2.returncode, m2))
+                return 0
+            if str(rp.get("class", "")).startswith("race:"):
+                r, n = replay_until(exe, rp, workdir, "user", rp["class"], 8, trace=True)
+                print("(race verdict: the schedule was replayed %d time(s))" % n)
+            else:
+                r = run_replay(exe, rp, workdir, "user", trace=True)
             if r is None or r.get("machinery"):
                 raise Machinery("replay failed: %s" % ((r or {}).get("machinery", "timeout")))
             if not r.get("ok"):
@@ -481,9 +545,30 @@ def run_check(args, seed, t0):
         stop_at = 1000000 if any(k.get("property") == prop and k.get("status") == "known" for k in known) else 1
         results, crashed = run_workers(exe, prop, tier, per, first_seed, nworkers, extra_env, workdir,
                                        wall=args.wall or tcfg.get("wall"), stop_at=stop_at)
+        crash_viol = None
         if crashed:
             i, rc, tail = crashed[0]
-            raise Machinery("worker %d exited with status %d:\n%s" % (i, rc, tail))
+            # full stderr of that worker
+            with open(os.path.join(workdir, "err-%d.log" % i)) as f:
+                full = f.read()
+            cseed, cmsg, cframe = crash_info(full)
+            if cseed is None or cmsg is None or cframe is None:
+                raise Machinery("worker %d exited with status %d:\n%s" % (i, rc, tail))
+            # a panic / fatal error inside mtail code took the process down: confirm it by running that seed alone
+            cls = "crash:" + cmsg[:120]
+            rp = {"property": prop, "class": cls, "seed": cseed, "tier": tier, "by_seed": True, "tapes": None,
+                  "msg": "the process died in mtail code (%s): %s" % (cframe, cmsg)}
+            path = os.path.join(workdir, "replay-crash.json")
+            with open(path, "w") as f:
+                json.dump(rp, f)
+            env = dict(os.environ)
+            env.update(extra_env)
+            env.update({"VERIF_PROP": prop, "VERIF_REPLAY": path, "VERIF_OUT": os.path.join(workdir, "crash.out"), "VERIF_TMP": workdir})
+            p2 = subprocess.run([exe, "-test.run", "^TestWorker$", "-test.timeout", "0"], env=env, stdout=subprocess.PIPE, stderr=subprocess.STDOUT, cwd=workdir, text=True)
+            s2, m2, f2 = crash_info(p2.stdout)
+            if p2.returncode == 0 or m2 != cmsg:
+                raise Machinery("worker %d crashed at seed %s (%s in %s) but the seed alone does not crash the same way (rc=%d %s):\n%s" % (i, cseed, cmsg, cframe, p2.returncode, m2, tail))
+            crash_viol = (cls, rp, cframe, cmsg)
         mach = [r for r in results if r.get("machinery")]
         if mach:
             raise Machinery("run seed=%d: %s" % (mach[0]["seed"], mach[0]["machinery"]))
@@ -519,6 +604,18 @@ def run_check(args, seed, t0):
         for c, (n, k) in sorted(known_hit.items()):
             print("KNOWN-FINDING: property=%s %s %s (hit by %d of %d runs)" % (prop, c, k.get("what", ""), n, agg["runs"]))
         wall = time.time() - t0
+        if crash_viol and not match_known(prop, crash_viol[0], known):
+            cls, rp, cframe, cmsg = crash_viol
+            os.makedirs(os.path.join(VERIF, "replays", prop), exist_ok=True)
+            path = os.path.join(VERIF, "replays", prop, "%d-crash.json" % rp["seed"])
+            with open(path, "w") as f:
+                json.dump(rp, f, indent=1, sort_keys=True)
+                f.write("\n")
+            print("violation: class=%s seed=%d\n  the worker process died inside mtail code (%s); the seed alone reproduces it" % (cls, rp["seed"], cframe))
+            print("VIOLATION property=%s replay=%s" % (prop, path))
+            if not args.no_evidence:
+                write_evidence(prop, tier, seed, cfg, agg, wall, 1)
+            return 1
         if not new:
             if not args.no_evidence:
                 write_evidence(prop, tier, seed, cfg, agg, wall, 0)
@@ -538,9 +635,13 @@ def run_check(args, seed, t0):
         os.makedirs(os.path.join(VERIF, "replays", prop), exist_ok=True)
         for c, v in sorted(byclass.items()):
             print("violation candidate: class=%s seed=%d\n  %s" % (c, v["seed"], (v.get("msg") or "")[:1500]))
-            if args.no_minimise:
+            israce = c.startswith("race:")
+            if args.no_minimise or israce:
                 rp = {"property": prop, "class": c, "seed": v["seed"], "tier": tier, "tapes": v.get("tapes") or {}, "msg": v.get("msg", "")}
-                r0 = run_replay(exe, rp, workdir, "confirm")
+                if israce:
+                    r0, _ = replay_until(exe, rp, workdir, "confirm", c, 8)
+                else:
+                    r0 = run_replay(exe, rp, workdir, "confirm")
                 if r0 is None or r0.get("ok") or r0.get("class") != c:
                     raise Machinery("violation %s seed %d did not reproduce on replay" % (c, v["seed"]))
             else:
@@ -552,7 +653,10 @@ def run_check(args, seed, t0):
             # final confirmation in a fresh process from the written file
             with open(path) as f:
                 rp2 = json.load(f)
-            r = run_replay(exe, rp2, workdir, "final", trace=True)
+            if israce:
+                r, _ = replay_until(exe, rp2, workdir, "final", c, 8, trace=True)
+            else:
+                r = run_replay(exe, rp2, workdir, "final", trace=True)
             if r is None or r.get("ok") or r.get("class") != c:
                 raise Machinery("minimised replay of %s did not reproduce" % path)
             print("  minimal failing run: %s" % (r.get("msg") or "")[:3000])
